@@ -2,6 +2,9 @@
 # Run every check's quick tier for several seeds with the already-built binary, keeping
 # evidence/replays out of /verif. usage: tools/soak.sh "<seeds>" [ids...]
 seeds="$1"; shift
+# the binary may have been left by an evaluation against a patched /repo: rebuild first
+(cd /repo && git status --short | grep -q .) && { echo "/repo is not clean"; exit 2; }
+(cd /verif/harness && CARGO_NET_OFFLINE=true cargo build --profile verif >/dev/null 2>&1) || { echo "build failed"; exit 2; }
 ids="${*:-$(/verif/harness/target/verif/vcheck list)}"
 home=/tmp/verif-soak-$$
 mkdir -p $home && cp -r /verif/corpus /verif/known_findings.json $home/
